@@ -71,12 +71,43 @@ def rule_alpha(E, R):
     # the accumulator: a String local that receives `push(char)`
     accs = {local_name(c["recv"]) for c in exprs(body, "MethodCall") if c["m"] == "push" and norm(c["recv"].get("ty", "")).endswith("string::String")}
     accs.discard(None)
-    if len(accs) != 1:
-        return R.cannot(rule, fn, "could not identify the name accumulator (%s)" % sorted(accs))
-    acc = accs.pop()
     got = set()
     ok_extract = True
     n_arms = 0
+    scanned = False
+    if not accs:
+        # no character-by-character accumulation: the name is cut out of the input by an iterator search whose predicate
+        # classifies one character (`find(|c| !matches!(c, SET))`, `take_while(|c| matches!(c, SET))`, ...)
+        for c in exprs(body, "MethodCall"):
+            if c["m"] not in ("find", "position", "take_while", "trim_start_matches", "split_once", "rfind") or not c.get("args"):
+                continue
+            clo = closure_of(c["args"][0])
+            if not clo:
+                continue
+            stops_on_true = c["m"] in ("find", "position", "rfind", "split_once")
+            for m in exprs(clo["body"], "Match"):
+                if norm(m["scrut"].get("ty", "")).lstrip("&") != "char":
+                    continue
+                true_arms = [a for a in m["arms"] if is_lit(tail(a["body"]), True)]
+                negated = any(u.get("op") == "Not" and any(x is m for x in walk(u)) for u in exprs(clo["body"], "Unary"))
+                accepts = (negated and stops_on_true) or (not negated and not stops_on_true)
+                if not accepts or any("guard" in a for a in true_arms):
+                    continue
+                for a in true_arms:
+                    cs = _chars_of_any(a["pat"])
+                    if cs is None:
+                        ok_extract = False
+                    else:
+                        got |= cs
+                        n_arms += 1
+                scanned = True
+        # the local that holds the scanned name: the one tested with is_empty()
+        accs = {local_name(c["recv"]) for i in exprs(body, "If") if explicit_err_returns(i["then"])
+                for c in exprs(i["cond"], "MethodCall") if c["m"] == "is_empty"}
+        accs.discard(None)
+    if len(accs) != 1:
+        return R.cannot(rule, fn, "could not identify the name accumulator (%s)" % sorted(accs))
+    acc = accs.pop()
     for m in exprs(body, "Match"):
         for a in m["arms"]:
             pushes = [c for c in exprs(a["body"], "MethodCall", into_closures=False) if c["m"] == "push" and local_name(c["recv"]) == acc]
@@ -124,8 +155,8 @@ def rule_alpha(E, R):
             if "guard" in a and any(c["m"] == "is_empty" and local_name(c["recv"]) == acc for c in exprs(a["guard"], "MethodCall")) and \
                     explicit_err_returns(a["body"]):
                 empties += 1
-    n_break = len(list(exprs(body, "Break")))
-    R.check(empties >= 2 and n_break >= 1, rule, fn, "an empty name is rejected whether the scan stops at a foreign character or at the end of input",
+    n_break = len([b_ for b_ in exprs(body, "Break") if not b_.get("x")])
+    R.check((empties >= 2 and n_break >= 1) or (scanned and n_break == 0 and empties >= 1), rule, fn, "an empty name is rejected whether the scan stops at a foreign character or at the end of input",
             "%d `is_empty() -> Err` guards for %d loop exits" % (empties, n_break), h["span"])
     # leading / trailing dot
     dot = False
